@@ -62,7 +62,7 @@ fn rsa_oracles(b: &[u8], secret: bool) -> Value {
     json!({"lc_bits": lc_bits.unwrap_or(0), "rc_bits": rc_bits.unwrap_or(0), "is_pem": b.first() != Some(&0x30)})
 }
 
-fn pem_body(b: &[u8]) -> Option<Vec<u8>> {
+pub fn pem_body(b: &[u8]) -> Option<Vec<u8>> {
     let s = std::str::from_utf8(b).ok()?;
     if !s.starts_with("-----BEGIN ") {
         return None;
